@@ -12,7 +12,7 @@ Init == l = 1 /\ E = <<>> /\ meta = [id |-> 0, tags |-> <<>>, name |-> "", perio
 TReset == /\ l <= Len(Rec) /\ R.ev = "reset" /\ l' = l + 1
           /\ E' = <<>> /\ meta' = [id |-> R.id, tags |-> R.tags, name |-> R.name, period |-> R.period, expect |-> R.expect]
 TEvent == /\ l <= Len(Rec) /\ R.ev \notin {"reset", "quiesce"} /\ l' = l + 1
-          /\ E' = Append(E, [ev |-> R.ev, t |-> R.t, u |-> R.u, src |-> R.src, k |-> R.k, v |-> R.v, task |-> R.task, clk |-> R.clk, issub |-> R.issub, cnt |-> R.cnt])
+          /\ E' = Append(E, [ev |-> R.ev, t |-> R.t, u |-> R.u, src |-> R.src, k |-> R.k, v |-> R.v, task |-> R.task, clk |-> R.clk, issub |-> R.issub, cnt |-> R.cnt, fb |-> R.fb])
           /\ UNCHANGED meta
 TQuiesce == /\ l <= Len(Rec) /\ R.ev = "quiesce" /\ l' = l + 1
             /\ PrintT(ToJson([trace |-> meta.id, name |-> meta.name, rej |-> Judge(E, meta.tags, [fin |-> R.fin, nblocked |-> R.nblocked, nparked |-> R.nparked, clk |-> R.clk, period |-> meta.period, expect |-> meta.expect]), fin |-> R.fin, events |-> Len(E)]))
